@@ -28,7 +28,7 @@ CHECKS = {
    "held on the texts explored (AST families x 9 layouts, seeded random schemas)",
    "runtime monitoring: idempotence oracle over generated inputs"),
  "C13": ("exploration",
-   "every single semantic-error injection of the statement's classes, at every applicable site, into ~560 base schemas that the real ReadFile+Generate first accept (construct/ordering families + seeded random), executed in child processes; positive recursion cases and struct chains/cycles up to 64 definitions under a CPU budget",
+   "every single semantic-error injection of the statement's classes, at every applicable site and under two layouts, into ~560 base schemas that the real ReadFile+Generate first accept (construct/ordering families + seeded random), executed in child processes; positive recursion cases and struct chains/cycles up to 64 definitions under a CPU budget",
    "held on the (class, site, base) triples explored; out-of-range consts and self-containment through containers are deliberately not demanded (DESIGN section 8); one class x site is a recorded known finding",
    "runtime monitoring: mutation-injection workload with accept/reject oracle, CPU-budget monitor for the recursion analysis"),
  "C12": ("exploration",
@@ -84,7 +84,7 @@ CHECKS = {
    "exhaustive for n<=3 (and loop-free n=4 in separate mode), sampled beyond; cycle errors recognised by their text",
    "runtime monitoring: exhaustive small-graph enumeration with an independent digraph oracle and a differential inlining oracle"),
  "C19": ("fault_enumeration",
-   "the real bebopc-go and bebopfmt binaries run in scratch directories with a pre-existing sentinel target: input cells (valid, every rejected file of testdata/invalid, validation errors, missing imports, nonexistent, directory, several files formatted twice) x fault cells injected from outside with strace: EVERY k-th openat/write/rename*/close/fsync/... call of a fault-free run fails, and separately the process is SIGKILLed at it, plus RLIMIT_FSIZE; oracle on exit status, printed messages and the target's bytes; successful bebopfmt -w output is re-parsed by the real ReadFile and compared with the original schema",
+   "the real bebopc-go and bebopfmt binaries run in scratch directories with a pre-existing sentinel target: input cells (valid incl. commented, const-dense and one-line schemas under 9 layouts, symlinked targets, lines up to 200 kB, every rejected file of testdata/invalid, validation errors, missing imports, nonexistent, directory, several files formatted twice, argument lists with a bad file in every position, failing runs without a pre-existing output) x fault cells injected from outside with strace: EVERY k-th openat/write/rename*/close/fsync/... call of a fault-free run fails, and separately the process is SIGKILLed at it, plus RLIMIT_FSIZE; oracle on exit status, printed messages and the target's bytes; successful bebopfmt -w output is re-parsed by the real ReadFile and compared with the original schema",
    "exhaustive over the system calls a fault-free run makes (per-thread counting; GOMAXPROCS=1), sampled over inputs; inconclusive if ptrace is unavailable",
    "runtime monitoring: syscall-level fault and crash-point injection (strace) around the real binaries with a file-state oracle"),
 }
